@@ -31,7 +31,7 @@ TRUSTED = [
     "C06 (RegionLagrange): the float inverse-Vandermonde table of ArbitraryOrderLagrange and the float Gauss-Legendre points / weights are read as the exact rationals they denote (A1); obligations in tolerance form sum|coeff| <= tol (as for the other float-table templates); the element itself is under the C04 contract",
     "C06 (RegionLagrange): fully generic (every node free) cells for order 1 (2D, 3D) and order 2 (2D, thorough tier); higher orders on the generic affine cell; reproduction of constants / linear functions on distorted cells of every order follows from the opaque-element contract of contracts/c06_regions.py with the C04 identities of the element",
     "C06 (RegionLagrange) paper lemma: exactness of the rule for all products d_i h_a d_j h_b on the reference cube implies exactness for grad_X h_a . grad_X h_b dV on every affine cell (constant Jacobian: the integrand is a fixed linear combination of those products); stated end to end on the generic affine cell for orders 1 and 2, through the lemma for orders >= 3",
-    "C06 (RegionVertex): grad=True is not instantiated (a vertex has no Jacobian: dX/dr of the one-point element is identically zero; no property clause speaks about it)",
+    "C06 (RegionVertex): grad=True has no symbolic instance (a vertex has no Jacobian: dX/dr of the one-point element is identically zero; no property clause speaks about it); the option is exercised natively in contracts/c06_options.py region_flags (dXdr == 0, dV == 0 in 1D; rejected by math.det for dim > 1: recorded observation)",
 ]
 
 
